@@ -97,3 +97,13 @@ Theorem C11_recipient_cert_mismatch_refused :
     = ORet (Err (E "key decryption attempted with mismatched cert")).
 Proof. exact key_transport_mismatch_refused. Qed.
 Print Assumptions C11_recipient_cert_mismatch_refused.
+
+(* Source tie: the plaintext that the TRANSLATED DecryptBytes of this run (GenDecrypt.v) returns is exactly the plaintext the
+   model of the round-trip theorems returns, for every input, certificate and behaviour of the crypto primitives *)
+From V Require Import GenPrelude GenPreludeD GenDecrypt P_GenDecrypt.
+Theorem C11_source_DecryptBytes_plaintext_is_the_models :
+  forall rsa_oaep rsa_pkcs1 gcm_open cbc_decrypt sha1_hex (ea : enc_assertion) (cert : option sp_cert) (plain : string),
+    G_EncryptedAssertion_DecryptBytes rsa_oaep rsa_pkcs1 gcm_open cbc_decrypt ea cert = PVal (Ok plain)
+    <-> decrypt_bytes rsa_oaep rsa_pkcs1 gcm_open cbc_decrypt sha1_hex cert ea = ORet (Ok plain).
+Proof. exact G_DecryptBytes_value_iff. Qed.
+Print Assumptions C11_source_DecryptBytes_plaintext_is_the_models.
